@@ -69,6 +69,38 @@ def _jsonable(x):
     return repr(x)
 
 
+def _prefix(oid):
+    cut = min([i for i in (oid.find("@"), oid.find("[")) if i >= 0] or [len(oid)])
+    return oid[:cut]
+
+
+def _summarise_fuc(fuc):
+    """functions under contract -> engine -> obligation ids; long lists (Engine S decides thousands of per-shape instances of one clause) are grouped by clause"""
+    out = {}
+    for fn, engines in fuc.items():
+        out[fn] = {}
+        for eng, ids in engines.items():
+            if len(ids) <= 30:
+                out[fn][eng] = ids
+            else:
+                groups = {}
+                for i in ids:
+                    groups[_prefix(i)] = groups.get(_prefix(i), 0) + 1
+                out[fn][eng] = {"count": len(ids), "clauses": groups, "examples": ids[:3]}
+    return out
+
+
+def _group_obligs(obligs):
+    groups = {}
+    for o in obligs:
+        k = (_prefix(o["id"]), o["function"], o["engine"], o["backend"])
+        g = groups.setdefault(k, {"clause": k[0], "function": k[1], "engine": k[2], "backend": k[3], "count": 0, "discharged": 0, "seconds": 0.0})
+        g["count"] += 1
+        g["discharged"] += o["status"] == "discharged"
+        g["seconds"] = round(g["seconds"] + o.get("time_s", 0.0), 4)
+    return list(groups.values())
+
+
 class Run:
     def __init__(self, pid, tier, seed, level, technique=""):
         self.pid = pid
@@ -212,7 +244,8 @@ class Run:
             "evaluations": evals, "distinct_nontrivial": distinct,
             "rule": self.rule, "samples": self.samples or [o for o in self.obligs[:5]],
             "explanation": self.explanation,
-            "functions_under_contract": self.fuc,
+            "functions_under_contract": _summarise_fuc(self.fuc),
+            "proved_obligations_by_group": _group_obligs([o for o in self.obligs if o["engine"].startswith(("A", "S"))]),
             "backends": self.backends,
             "undecided": self.undecided,
             "bounded_only": {k: {"function": v["function"], "evaluations": v["evaluations"],
